@@ -1492,6 +1492,7 @@ theorem ex_merged : mergedData exItems [("inc".toList, exInc)] =
 
 theorem ex_text_entries : fmtPlain .native (mergedData exItems [("inc".toList, exInc)]) =
     "a                             1;\nb                             3;\n".toList := by decide +kernel
+theorem t2 : fmtPlain .native (mergedData exItems [("inc".toList, exInc)]) = "a                             1;\nb                             3;\n".toList := by decide +kernel
 theorem ex_text_dirs : ((namesOf exItems).map dirLine).flatMap (· ++ ['\n']) = "#include inc\n".toList := by decide +kernel
 
 /-- the parsed file of the example: header, the directive again, the merged entries -/
@@ -1506,78 +1507,6 @@ example (ev : Str → EvalResult) := C03_included_parse_reread exSetup ev
 example (ev : Str → EvalResult) (n : Nat) := C03_included_cycles exSetup ev n
 example (ev : Str → EvalResult) := C03_included_bytes exSetup ev
 
-/-! ### the witness of the refutation: the same file included twice, once in single and once in double quotes -/
-
-/-- `#include 'x'`, `#include "x"`, `a 1;` -/
-def dupItems : List IItem := [.incl (some '\'') ['x'], .incl (some '"') ['x'], .entry ['a'] (.lit (.bare ['1']))]
-def dupGaps : List Str := [[], ['\n'], ['\n'], [' '], []]
-
-theorem dupToks : itoksItems dupItems =
-    [.tok (.word "#include 'x'".toList), .tok (.word "#include \"x\"".toList), .tok (.word ['a']), .tok (.word ['1']),
-     .tok (.word [';'])] := by
-  have e1 : dirText (some '\'') ['x'] = "#include 'x'".toList := by decide
-  have e2 : dirText (some '"') ['x'] = "#include \"x\"".toList := by decide
-  simp only [dupItems, itoksItems, Lit.tok, e1, e2, List.cons_append, List.nil_append]
-
-def dupSrcText : Str := "#include 'x'\n#include \"x\"\na 1;\n".toList
-
-theorem dupSrc_text : spreadC (itoksItems dupItems) dupGaps ['\n'] = dupSrcText := by rw [dupToks]; decide +kernel
-
-def dupFs : FS := [(exSrc, .native dupSrcText), (["w".toList, "x".toList], .native exInc.text)]
-def dupIncs : List (Str × IncDoc) := [(['x'], exInc), (['x'], exInc)]
-
-theorem dupSetupW : SetupW dupFs exSrc none dupItems dupGaps ['\n'] dupIncs where
-  hwi := ⟨by decide +kernel, by decide +kernel, Or.inl rfl, by decide +kernel, by decide +kernel, by decide +kernel,
-    by decide +kernel⟩
-  layout := by rw [dupToks]; decide +kernel
-  tailws := fun h => by cases h
-  nq := by decide +kernel
-  docKeys := by decide +kernel
-  srcGet := by rw [dupSrc_text]; decide +kernel
-  srcNotXml := by decide +kernel
-  srcNotJson := by decide +kernel
-  srcNe := by decide
-  incNames := by decide +kernel
-  incFiles := by
-    intro q hq
-    have : q = (['x'], exInc) := by
-      simp only [dupIncs, List.mem_cons, List.not_mem_nil, or_false, or_self] at hq; exact hq
-    subst this
-    exact { notXml := by decide +kernel, notJson := by decide +kernel, get := by decide +kernel, ok := exInc_ok }
-  tgtNative := by decide +kernel
-  tgtFresh := by decide +kernel
-  nqW := by decide +kernel
-
-/-- cycle 1 writes the directive twice (`#include x`, `#include x`: both spellings are written bare) … -/
-theorem dup_text1 :
-    textAt (apiRun evalInt { fs := dupFs, c := none } (cycleOps exSrc 0)).1 (resolveSpelled (tgtOf exSrc)) =
-      some (nativeHeader ++ "#include x\n#include x\na                             1;\nb                             3;\n".toList) := by
-  decide +kernel
-
-/-- … on reading that file `_clean` finds two include entries with the same table value and deletes one: cycle 2 writes
-    the directive once … -/
-theorem dup_text2 :
-    textAt (apiRun evalInt { fs := dupFs, c := none } (cycleOps exSrc 1)).1 (resolveSpelled (tgtOf exSrc)) =
-      some (nativeHeader ++ "#include x\na                             1;\nb                             3;\n".toList) := by
-  decide +kernel
-
-/-- … and cycle 3 writes what cycle 2 wrote -/
-theorem dup_text3 :
-    textAt (apiRun evalInt { fs := dupFs, c := none } (cycleOps exSrc 2)).1 (resolveSpelled (tgtOf exSrc)) =
-      some (nativeHeader ++ "#include x\na                             1;\nb                             3;\n".toList) := by
-  decide +kernel
-
-/-- **the bytes claim is false without `namesnd`** -/
-theorem C03_included_bytes_statement_false : ¬ C03_included_bytes_statement := by
-  intro h
-  have := h dupFs exSrc none dupItems dupGaps ['\n'] dupIncs dupSetupW
-  rw [dup_text1, dup_text2] at this
-  revert this
-  decide +kernel
-
-/-- … while the data are the same in every cycle on this witness too -/
-theorem exDup_data : dataOuts (apiRun evalInt { fs := dupFs, c := none } (cycleOps exSrc 2)).2 =
-    List.replicate 3 (some (mergedData dupItems dupIncs)) := by decide +kernel
 
 #check @RdOK.write
 #print axioms RdOK.write
